@@ -1,5 +1,6 @@
 """C01 implementation runner: ValueIteration (vectorized, dict) and PolicyIteration on generated MDPs."""
 import os, sys
+from fractions import Fraction
 sys.path.insert(0, os.path.dirname(os.path.abspath(__file__)))
 from build import *
 
@@ -59,6 +60,39 @@ def one(case, pl):
             if isinstance(e, (KeyboardInterrupt, SystemExit)):
                 raise
             res["planners"][name] = {"error": type(e).__name__ + ": " + str(e)[:300]}
+    if case.get("batch"):
+        # the batch entry point of policy iteration: this MDP planned together with variants of itself (same
+        # state/action sets, rewards scaled, other discount rates) at a chosen position of the batch
+        try:
+            b = case["batch"]
+            mdps = []
+            for v in b["variants"]:
+                if v is None:
+                    mdps.append(mdp)
+                else:
+                    mv = dict(case["mdp"])
+                    mv["reward"] = {k: str(Fraction(x) * Fraction(v["scale"])) for k, x in case["mdp"]["reward"].items()}
+                    mv["gamma"] = v["gamma"]
+                    mdps.append(build_mdp(mv, explicit_lists=case.get("explicit_lists", False)))
+            key = ("pi", case["max_residual"], case["max_iterations"], case["undefined_value"])
+            if key not in _PLANNERS:
+                _PLANNERS[key] = planners["pi"]()
+            rs = _PLANNERS[key].batch_plan_on(mdps)
+            if len(rs) != len(mdps):
+                raise AssertionError("batch_plan_on returned %d results for %d problems" % (len(rs), len(mdps)))
+            r = rs[b["variants"].index(None)]
+            if list(r.state_value.state_list) != sl:
+                raise AssertionError("batch result carries another problem's state list")
+            res["planners"]["pi_batch"] = {
+                "V": [fj(r.state_value[s]) for s in sl],
+                "Q": [[fj(r.action_value[s][a]) for a in al] for s in sl],
+                "pi": [[fj(r.policy[s][a]) for a in al] for s in sl],
+                "initial_value": fj(r.initial_value),
+                "converged": bool(r.converged), "iterations": int(r.iterations)}
+        except BaseException as e:
+            if isinstance(e, (KeyboardInterrupt, SystemExit)):
+                raise
+            res["planners"]["pi_batch"] = {"error": type(e).__name__ + ": " + str(e)[:300]}
     return res
 
 
